@@ -513,8 +513,9 @@ std::string sqf::parser::preprocessor::impl_default::instance::handle_arg(::sqf:
                 auto res = try_get_macro(word);
                 if (res.has_value())
                 {
-                    if (res.value().is_callable())
-                    {
+                    if (res.value().is_callable() && !part_of_word)
+                    { // step back onto the character after the name (the '(' of the call); if the name is
+                      // the last thing in the argument there is nothing to step back to
                         local_fileinfo.move_back();
                     }
                     auto handled = handle_macro(runtime, local_fileinfo, original_fileinfo, res.value(), param_map);
